@@ -14,7 +14,9 @@ echo "# seeded change x check (quick tier) at /verif $(git -C /verif rev-parse -
 for d in /verif/seeded/C*/; do
   id=$(basename $d); owner=${id:0:3}
   if ! git -C $R apply $d/patch.diff 2>/dev/null; then echo "$id patch-does-not-apply-to-HEAD" >> $out.tmp; continue; fi
-  checks="$owner"; [ "${1:-}" = "all" ] && checks="C01 C02 C03 C04 C05 C06 C07 C08 C09 C10 C11 C12 C13 C14 C15 C16 C17 C18 C19 C20"
+  # the owning check plus every check named in the recorded result ("DETECTED ... by C02", "also C12")
+  extra=$(python3 -c "import json,re,sys; m=json.load(open('$d/meta.json')); print(' '.join(sorted(set(re.findall(r'C[0-2][0-9]', m.get('result',''))) - {'$owner'})))" 2>/dev/null)
+  checks="$owner $extra"; [ "${1:-}" = "all" ] && checks="C01 C02 C03 C04 C05 C06 C07 C08 C09 C10 C11 C12 C13 C14 C15 C16 C17 C18 C19 C20"
   line="$id"
   for c in $checks; do
     $V/check $c quick > /tmp/seedmx.log 2>&1; rc=$?
